@@ -319,7 +319,7 @@ def classify_bash_diff(c, cr, b):
 
 def globby(c):
     v = c.value if isinstance(c.value, str) else ""
-    return "f" not in c.opts and (any(ch in v for ch in "*?[\\") or re.search(r"[+@!]\(", v) is not None)
+    return "f" not in c.opts and any(ch in v for ch in "*?[\\(")     # "(": bash's extglob-opener heuristics
 
 
 def nontrivial(c):
